@@ -38,6 +38,7 @@ package main
 import (
 	"bytes"
 	"context"
+	"errors"
 	"fmt"
 	"math/rand"
 	"os"
@@ -165,6 +166,15 @@ func c09ExecConc(f []string) (string, []Fail) {
 		stat("conc:child ok")
 		return res, fails
 	}
+	if ctx.Err() != nil { // no answer within the time limit: "hang" (the driver runs such a case again, alone)
+		stat("conc:child timed out")
+		return "hang", nil
+	}
+	var ee *exec.ExitError
+	if runErr != nil && !errors.As(runErr, &ee) { // the child could not be started (resources): not the code's doing
+		stat("conc:in-process (child not started)")
+		return c09ConcHere(f, true)
+	}
 	// the child died: the answers of the calls run alone are computed here, the death is the failure
 	stat("conc:child DIED")
 	res, fails = c09ConcHere(f, false)
@@ -180,9 +190,6 @@ func c09ExecConc(f []string) (string, []Fail) {
 				what = append(what, t)
 			}
 		}
-	}
-	if ctx.Err() != nil {
-		what = append(what, "no answer within the time limit")
 	}
 	fails = append(fails, Fail{"conc.crash", fmt.Sprintf("the process running the calls concurrently died (%v): %s", runErr, strings.Join(what, " | "))})
 	return res, fails
